@@ -5,6 +5,7 @@ import (
 	"go/ast"
 	"go/token"
 	"go/types"
+	"path/filepath"
 	"sort"
 	"strings"
 
@@ -29,6 +30,7 @@ type Oblig struct {
 	Output  string
 	Params  []string // parameter terms for replay (name=term)
 	ParamTs []string
+	Replay  *ReplayInfo
 }
 
 type exitKind int
@@ -93,6 +95,7 @@ type FnV struct {
 	curPos   token.Pos
 	decl     *ast.FuncDecl
 	fnobj    *types.Func
+	replay   *ReplayInfo
 }
 
 type closureRec struct {
@@ -100,7 +103,7 @@ type closureRec struct {
 	frame *Frame
 }
 
-func (v *FnV) fr() *Frame { return v.frames[len(v.frames)-1] }
+func (v *FnV) fr() *Frame        { return v.frames[len(v.frames)-1] }
 func (v *FnV) info() *types.Info { return v.fr().pkg.TypesInfo }
 
 func (v *FnV) pos(n ast.Node) string {
@@ -296,6 +299,10 @@ func (v *FnV) oblige(st *State, kind string, node ast.Node, ord int, cond string
 		name += fmt.Sprintf("@%d", ord)
 	}
 	ob := &Oblig{Name: name, Fn: v.name, Kind: kind, Pos: v.pos(node), Desc: desc, Params: v.params, ParamTs: v.paramTs}
+	if v.replay != nil {
+		ri := *v.replay
+		ob.Replay = &ri
+	}
 	if cond == "true" {
 		ob.Quick = "unsat"
 		ob.Result = "unsat"
@@ -412,6 +419,39 @@ func (e *Engine) verifyFunc(fc *FuncContract) []*Oblig {
 		}
 		fr.results = append(fr.results, obj)
 	}
+	// replay template
+	{
+		ri := &ReplayInfo{PkgName: pkg.Name, Func: decl.Name.Name, Method: sig.Recv() != nil, TagTypes: map[int]types.Type{}}
+		if len(pkg.GoFiles) > 0 {
+			if rel, err := filepath.Rel(e.repo, filepath.Dir(pkg.GoFiles[0])); err == nil {
+				ri.PkgDir = rel
+			}
+		}
+		for i := 0; i < sig.Params().Len(); i++ {
+			p := sig.Params().At(i)
+			if p.Name() == "" || p.Name() == "_" || sig.Variadic() {
+				ri.Method = true // not replayable
+				continue
+			}
+			ri.Params = append(ri.Params, p.Name())
+			ri.Terms = append(ri.Terms, scope[p.Name()].S)
+			ri.Types = append(ri.Types, p.Type())
+		}
+		for i := 0; i < sig.Results().Len(); i++ {
+			r := sig.Results().At(i)
+			switch {
+			case i < len(fc.Results):
+				ri.Results = append(ri.Results, fc.Results[i])
+			case r.Name() != "" && r.Name() != "_":
+				ri.Results = append(ri.Results, r.Name())
+			case sig.Results().Len() == 1:
+				ri.Results = append(ri.Results, "result")
+			default:
+				ri.Results = append(ri.Results, fmt.Sprintf("res%d", i))
+			}
+		}
+		v.replay = ri
+	}
 	v.entry = st.fork()
 	// preconditions
 	sc := &Scope{v: v, vars: scope, pkg: pkg, pos: decl.Body.Lbrace + 1}
@@ -501,6 +541,11 @@ func (v *FnV) checkPosts(ex Exit, sc *Scope, ord int) {
 		name := fmt.Sprintf("%s#%s", v.name, label)
 		ob := &Oblig{Name: name, Fn: v.name, Kind: "post", Pos: v.pos(ex.node), Desc: fmt.Sprintf("ensures %s (at return #%d)", cl.Text, ord),
 			Params: v.params, ParamTs: v.paramTs}
+		if v.replay != nil {
+			ri := *v.replay
+			ri.Clause = cl.Expr
+			ob.Replay = &ri
+		}
 		ob.SMT = v.script(st, val.S)
 		v.obligs = append(v.obligs, ob)
 	}
@@ -628,7 +673,7 @@ func (v *FnV) alloc(st *State, hint string) string {
 	return r
 }
 
-func heapName(t types.Type) string { return "H_" + mangle(typeKey(t)) }
+func heapName(t types.Type) string     { return "H_" + mangle(typeKey(t)) }
 func elemHeapName(t types.Type) string { return "E_" + mangle(typeKey(t)) }
 
 func (v *FnV) load(st *State, t types.Type, ref string) string {
@@ -1450,10 +1495,11 @@ func (v *FnV) loopClauses(ord int) loopSpec {
 }
 
 // loopCore runs the generic cut-point treatment.
-//   pre:   executed once before the loop (already done by caller)
-//   guard: returns the loop condition in a state (nil = true)
-//   body:  executes one iteration body
-//   post:  executes the post statement
+//
+//	pre:   executed once before the loop (already done by caller)
+//	guard: returns the loop condition in a state (nil = true)
+//	body:  executes one iteration body
+//	post:  executes the post statement
 func (v *FnV) loopCore(st *State, node ast.Stmt, label string, modified []ast.Node,
 	extraInv func(*State) []string,
 	guard func(*State) string, body func(*State) Flow, post func(*State) *State) Flow {
